@@ -139,8 +139,9 @@ def seq_behaviour(cls, text):
     return None
 
 
-for cls, pool in ((seq.NucleotideSequence, "ACGT"), (seq.NucleotideSequence, "ANRY"), (seq.ProteinSequence, "ACW*")):
-    for n in range(0, 4):
+for cls, pool in ((seq.NucleotideSequence, "ACGT"), (seq.NucleotideSequence, "ANRY"), (seq.ProteinSequence, "ACW*"),
+                  (seq.NucleotideSequence, "WSKMBVDH")):          # the remaining ambiguity codes (pairs only)
+    for n in range(0, 4 if len(pool) == 4 else 3):
         for t in itertools.product(pool, repeat=n):
             R.check("sequence objects agree with their strings", f"{cls.__name__} ops", {"text": "".join(t)},
                     lambda cls=cls, t=t: seq_behaviour(cls, "".join(t)))
@@ -303,12 +304,15 @@ def codon_table_database():
 R.check("translation == codon-wise lookup; derived tables leave the parent untouched", "codon table database", {"file": "codon_tables.txt"}, codon_table_database)
 
 
-def orf_contract(text):
+def orf_contract(text, table_name="default", met=None):
+    """met: None = the documented default (the start codon is translated like every other codon), False / True =
+    the option given explicitly (True: the first residue is methionine whatever the start codon codes for)"""
     s = seq.NucleotideSequence(text)
-    table = seq.CodonTable.default_table()
+    table = {"default": seq.CodonTable.default_table, "table 11": lambda: seq.CodonTable.load(11),
+             "TTG/CTG starts": lambda: seq.CodonTable.default_table().with_start_codons(["TTG", "CTG"])}[table_name]()
     starts = set(table.start_codons())
     cd = table.codon_dict()
-    prots, pos = s.translate(complete=False, codon_table=table)
+    prots, pos = s.translate(complete=False, codon_table=table, **({} if met is None else {"met_start": met}))
     got = sorted((int(a), int(b), str(p)) for p, (a, b) in zip(prots, pos))
     exp = []
     for frame in range(3):
@@ -322,7 +326,7 @@ def orf_contract(text):
                     j += 3
                     if a == "*":
                         break
-                exp.append((i, j, "".join(aa)))
+                exp.append((i, j, ("M" + "".join(aa)[1:]) if met else "".join(aa)))
     if got != sorted(exp):
         return f"ORFs {got} != in-frame stretches {sorted(exp)}"
     if [int(a) for a, b in pos] != sorted(int(a) for a, b in pos):
@@ -334,6 +338,16 @@ pool = ["ATG", "TAA", "CCC", "TTG", "A", "AT"]
 for parts in itertools.product(pool, repeat=3):
     t = "".join(parts)
     R.check("ORFs are the in-frame stretches from each start codon to the first stop / frame end", "orf", {"seq": t}, lambda t=t: orf_contract(t))
+
+# other start codons than ATG (bacterial table, custom start codons), with the default options and with met_start given
+ALT = ["TTGAAATAA", "CTGCCCTTGTAG", "ATTGCATGACTGTAGGTGCC", "GTGTTGATGTAAATA", "ATAATCATTTGA"]
+for t in ALT + ["".join(p) for p in itertools.product(["ATG", "TTG", "CTG", "TAA", "CC"], repeat=3)]:
+    for tn in ("table 11", "TTG/CTG starts", "default"):
+        for met in (None, False, True):
+            if tn == "default" and met is None:
+                continue
+            R.check("ORFs are the in-frame stretches from each start codon to the first stop / frame end", "orf with other start codons",
+                    {"seq": t, "table": tn, "met_start": met}, lambda t=t, tn=tn, met=met: orf_contract(t, tn, met))
 
 # ORFs in several reading frames, a later frame starting earlier in the sequence
 _orf_rng = np.random.default_rng(R.args.seed + 303)
